@@ -24,12 +24,15 @@ CONFIG = dict(
           "unreceived, with the item's first announcement younger than the forget timeout, is followed by a request for the item "
           "within 4*ArriveTimeout + 1 s after max(announcement, end of suspension). Non-trivial = an item announced by >= 2 peers "
           "that was requested at least twice (re-fetch), or an item announced while suspended whose suspension ended; distinct by "
-          "hash of the generated history."),
+          "hash of the generated history. Unit TestC16ManyPeers: 5-8 peers each announce their own item while the idle fetcher is "
+          "suspended, then the suspension ends; T4 is checked with the tight bound 4*ArriveTimeout + 150 ms (runs whose canary overslept "
+          "more than 37 ms are not counted; three re-fails required)."),
     assumptions=["announcement timestamps are time.Now() at the call",
                  "operations are issued one at a time; 40 marker round trips after NotifyReceived mean it was consumed (2^-40)",
                  "requests made while suspended are not forbidden by the property (the fetcher's re-fetch timer ignores Suspend)"],
     units=[
         dict(test="TestC16Regression", kind="plain"),
         dict(test="TestC16Timeline", quick=6, thorough=608, shards=16),
+        dict(test="TestC16ManyPeers", quick=12, thorough=640, shards=16),
     ],
 )
